@@ -535,8 +535,84 @@ def rule_int_format(rep: Report, repo: Repo, clo: List[Tuple[str, str, ast.Funct
              'length-safe helper; the error path is where such values are printed, so a ValueError there is the generic failure', 4)
     n_sites = 0
     extra = [(EXPR, '_pow', repo.func(EXPR, '_pow'))] if repo.has_func(EXPR, '_pow') and not any(q == '_pow' for _, q, _ in clo) else []
-    for rel, q, fn in list(clo) + extra:          # _pow is reached through the operator table, not by name
-        tainted: Set[str] = set()
+    funcs = list(clo) + extra                     # _pow is reached through the operator table, not by name
+    # parameters that ARE such values: the two known entry points, plus (fixpoint over the closure) every parameter that
+    # receives a tainted argument at some call site - a range check like assert_address_in_memory sees exactly the unbounded values
+    seeds: Dict[str, Set[str]] = {q: set() for _, q, _ in funcs}
+    by_short: Dict[str, List[Tuple[str, ast.FunctionDef]]] = {}
+    for _, q, fn in funcs:
+        by_short.setdefault(q.split('.')[-1], []).append((q, fn))
+
+    def local_taint(q: str, fn: ast.FunctionDef) -> Set[str]:
+        tainted: Set[str] = set(seeds[q])
+        if q == '_pow':
+            tainted |= {a.arg for a in fn.args.args}
+        if q == 'Writer.add_data':
+            tainted |= {'data'}
+        changed = True
+        while changed:
+            changed = False
+            for n in walk_no_nested(fn):
+                tgt: List[str] = []
+                val: Optional[ast.AST] = None
+                if isinstance(n, ast.Assign) and len(n.targets) == 1 and isinstance(n.targets[0], ast.Name):
+                    tgt, val = [n.targets[0].id], n.value
+                elif isinstance(n, ast.AnnAssign) and isinstance(n.target, ast.Name) and n.value is not None:
+                    tgt, val = [n.target.id], n.value
+                elif isinstance(n, (ast.For, ast.comprehension)) and isinstance(n.target, ast.Name):
+                    tgt, val = [n.target.id], n.iter
+                if not tgt or val is None:
+                    continue
+                src = any((isinstance(x, ast.Call) and dotted(x.func).split('.')[-1] in UNBOUNDED_INT_PRODUCERS) or
+                          (isinstance(x, ast.Name) and x.id in tainted) for x in ast.walk(val))
+                if isinstance(val, ast.Call) and dotted(val.func) in SAFE_INT_FORMATTERS:
+                    src = False
+                if src and tgt[0] not in tainted:
+                    tainted.add(tgt[0])
+                    changed = True
+        return tainted
+    for _ in range(6):
+        grew = False
+        for _, q, fn in funcs:
+            t = local_taint(q, fn)
+            for c in calls(fn):
+                short = dotted(c.func).split('.')[-1]
+                for q2, fn2 in by_short.get(short, []):
+                    params = [a.arg for a in fn2.args.args]
+                    if params and params[0] in ('self', 'cls') and '.' in dotted(c.func):
+                        params = params[1:]
+                    for i_, a in enumerate(c.args):
+                        if i_ >= len(params) or isinstance(a, ast.Starred):
+                            continue
+                        if isinstance(a, ast.Call) and dotted(a.func) in SAFE_INT_FORMATTERS | {'len'}:
+                            continue
+                        def hot_(e: ast.AST) -> bool:
+                            # the integer itself flows: names, arithmetic, elements, producer calls - not a string built from it
+                            if isinstance(e, ast.Name):
+                                return e.id in t
+                            if isinstance(e, ast.Call):
+                                return dotted(e.func).split('.')[-1] in UNBOUNDED_INT_PRODUCERS
+                            if isinstance(e, ast.BinOp):
+                                return hot_(e.left) or hot_(e.right)
+                            if isinstance(e, ast.UnaryOp):
+                                return hot_(e.operand)
+                            if isinstance(e, ast.IfExp):
+                                return hot_(e.body) or hot_(e.orelse)
+                            if isinstance(e, (ast.Subscript, ast.Starred)):
+                                return hot_(e.value)
+                            if isinstance(e, (ast.Tuple, ast.List)):
+                                return any(hot_(x) for x in e.elts)
+                            return False
+                        hot = hot_(a)
+                        if hot and params[i_] not in seeds[q2]:
+                            seeds[q2].add(params[i_])
+                            grew = True
+        if not grew:
+            break
+    for rel, q, fn in funcs:
+        if q == 'int_to_str':
+            continue                              # the length-safe helper itself (its fallback is checked below)
+        tainted: Set[str] = set(seeds[q])
         # parameters that ARE such values
         if q == '_pow':
             tainted |= {a.arg for a in fn.args.args}
